@@ -253,6 +253,14 @@ pub fn child(arg: &str) {
     let rules: Vec<usize> = if parts[1].is_empty() { vec![] } else { parts[1].split('.').map(|x| x.parse().unwrap()).collect() };
     let ops = parse_ops(parts[2]);
     let texts: Option<Vec<String>> = if text { Some(texts_of(&ops)) } else { None };
+    // another thread of this process has seen the slot names first, in the opposite order (what a thread interns is its own
+    // business: the replay below must not notice)
+    let _ = std::thread::spawn(|| {
+        for i in (0..NNAMES).rev() {
+            let _ = Slot::named(&format!("n{i}"));
+        }
+    })
+    .join();
     let r = in_fresh_thread(move || {
         intern_names();
         transcript_t(&ops, &rules, iters, texts.as_deref())
